@@ -122,6 +122,27 @@ extern "C" void sbv_harness(const char*)
             for (tensor_size_t i = 0; i < tv.second.size(); ++i) sbv_out("valid", static_cast<uint64_t>(tv.second(i)));
         }
     }
+    else if (sbv_cfg_is("mode", "randsize"))
+    {
+        // size clause for EVERY train percentage of the parameter domain (symbolic) on larger inputs: the random source is
+        // irrelevant to the sizes, so the contract returns its lower bound and the samples are the concrete 0..n-1
+        sbv_set_contract("udist", 1);
+        indices_t samples(n);
+        for (tensor_size_t i = 0; i < n; ++i) samples(i) = i;
+        const auto perc     = static_cast<tensor_size_t>(sbv_range("perc", 10, 90));
+        auto       splitter = random_splitter_t{};
+        splitter.parameter("splitter::folds")             = folds;
+        splitter.parameter("splitter::random::train_per") = perc;
+        const auto splits   = splitter.split(samples);
+        const auto expected = (2 * perc * n + 100) / 200;
+        sbv_check(static_cast<tensor_size_t>(splits.size()) == folds, "split(): one (train, valid) pair per fold");
+        for (const auto& tv : splits)
+        {
+            sbv_check(tv.first.size() == expected, "random: the training part has round(percentage*n/100) elements (every percentage in 10..90)");
+            sbv_check(tv.first.size() + tv.second.size() == n, "train and valid sizes add up to the input size");
+            sbv_out("train_size", static_cast<uint64_t>(tv.first.size()));
+        }
+    }
     else if (sbv_cfg_is("mode", "without"))
     {
         const auto samples = make_samples(n, ordered);
